@@ -6,7 +6,7 @@
     `start … (delta)` range is written out as `start + i·delta` (`rangeVal`, arg-val-math.c), arrays
     recursively.  `none`: the structured list is not one the property quantifies over — an
     infinite range (`n = 0`), a range of ranges, a header cell used as a value, or a range whose
-    arithmetic is undefined (overflow, unsupported type, NaN operand).
+    arithmetic is undefined (unsupported type, NaN operand).
   * `Val.cmpList`: the order the property describes — lexicographic over the values, a proper
     prefix first; two arrays are ordered by element type ('T' counted as 'F'), then by content;
     values of different type by their type character; same-typed scalars by the documented
